@@ -545,6 +545,9 @@ func (fc *FnCtx) applyContractX(c *Contract, name string, args []V, sig *types.S
 		env.vars[n] = args[i]
 	}
 	site := fc.srcText(pos, isKind[*ast.CallExpr])
+	if c.MayPanic && !fc.dry && !fc.inPanicExit {
+		fc.panicExit(name, site, pos)
+	}
 	if !fc.dry {
 		for _, r := range c.Requires {
 			if fc.c != nil && fc.c.AssumePre != nil {
@@ -699,4 +702,58 @@ func (fc *FnCtx) onceDo(cc *ssa.CallCommon, args []V, pos token.Pos) V {
 	fc.heapSet(fc.cur, "ghost:oncedone", srt, sx("store", arr2, o.T[0], "true"))
 	fc.noteWrite("ghost:oncedone")
 	return V{Ty: types.NewTuple()}
+}
+
+// panicExit: the exceptional exit of a call to a callee that may panic. The callee may have done anything before it
+// panicked (everything is havocked on a copy of the state); the deferred functions registered so far run; then
+//   - a function declared `recovers` must have, among those deferred functions, one that calls recover() itself
+//     (recover stops a panic only when the deferred function calls it directly), and its `onpanic` clauses must hold;
+//   - a function that neither recovers nor is declared may_panic lets the panic through unannounced: reported.
+func (fc *FnCtx) panicExit(callee, site string, pos token.Pos) {
+	if fc.c == nil {
+		return
+	}
+	if !fc.c.Recovers {
+		if !fc.c.MayPanic {
+			fc.oblige("panic", "propagates_unannounced{"+site+"}", "false", pos, fc.cprops(), "callee "+shortName(callee)+" may panic: declare this function may_panic or recover")
+		}
+		return
+	}
+	saved, savedBlock := fc.cur, fc.curBlock
+	fc.inPanicExit = true
+	fc.cur = saved.clone()
+	fc.havocAll(fc.cur)
+	found := false
+	for _, d := range fc.defers {
+		if mc, ok := d.instr.Call.Value.(*ssa.MakeClosure); ok {
+			if fn, ok := mc.Fn.(*ssa.Function); ok && callsRecoverDirectly(fn) {
+				found = true
+			}
+		}
+	}
+	goal := "false"
+	if found {
+		goal = "true"
+	}
+	fc.oblige("panic", "stopped_by_a_deferred_recover{"+site+"}", goal, pos, fc.cprops(), "a deferred function literal of this function calls recover() itself")
+	fc.runDefers()
+	env := fc.newEnv(fc.cur, fc.entry)
+	for _, cl := range fc.c.OnPanic {
+		fc.oblige("panic", cl.Label+"{"+site+"}", env.evalBool(cl.E), pos, fc.clauseProps(cl), cl.Text)
+	}
+	fc.cur, fc.curBlock = saved, savedBlock
+	fc.inPanicExit = false
+}
+
+func callsRecoverDirectly(fn *ssa.Function) bool {
+	for _, b := range fn.Blocks {
+		for _, in := range b.Instrs {
+			if c, ok := in.(*ssa.Call); ok {
+				if bi, ok := c.Call.Value.(*ssa.Builtin); ok && bi.Name() == "recover" {
+					return true
+				}
+			}
+		}
+	}
+	return false
 }
